@@ -17,8 +17,17 @@ func H_C15_Merge() {
 	opt := vOptsFull(dir, mode, rw, rw, seg, false)
 	structs := mode == HintKeyValAndRAMIdxMode
 	profile := vParam("profile")
+	vConcreteArgs, vArgCounter = vParam("conc") == 1, 0
 	txs := genTxs(profile, vParam("ntx"), vParam("maxops"))
-	more := genTxs(profile, 1, 1)
+	// the write after Merge: any operation of the profile, or (param simplemore=1) its first kind only
+	var more [][]*sOp
+	if vParam("crash") == 1 {
+		// the crash variant ends at the reopen; no later write is drawn
+	} else if vParam("simplemore") == 1 {
+		more = [][]*sOp{{genOp(profiles[profile][:1])}}
+	} else {
+		more = genTxs(profile, 1, 1)
+	}
 	keys := append(kvKeysOf(txs), kvKeysOf(more)...)
 	var seedTxs [][]*sOp
 	if vParam("seed") == 1 {
@@ -36,6 +45,9 @@ func H_C15_Merge() {
 		}
 		runTxs(dbT, seedTxs)
 		runTxs(dbT, txs)
+		if vParam("adv") == 1 {
+			vAdvance(2)
+		}
 		o0 := observe(dbT, keys, structs)
 		dbT.Close()
 		if vPredictedInt("crashed") != 1 {
@@ -62,6 +74,22 @@ func H_C15_Merge() {
 	}
 	runTxs(db, seedTxs)
 	runTxs(db, txs)
+	// twin without merge: receives the same history on the same timeline
+	var dbB *DB
+	if !crash {
+		var err error
+		dbB, err = Open(vOptsFull(vDir(), mode, rw, rw, seg, false))
+		if err != nil {
+			vFail("c15.open-twin")
+			return
+		}
+		runTxs(dbB, seedTxs)
+		runTxs(dbB, txs)
+	}
+	if vParam("adv") == 1 {
+		// let TTL=1 records expire before the merge (superseded-by-expired versions must stay dead)
+		vAdvance(2)
+	}
 	o0 := observe(db, keys, structs)
 	vReach("c15.before-merge")
 	// known finding: Merge re-applies the pushes of a non-empty list (see known_findings.json)
@@ -93,15 +121,6 @@ func H_C15_Merge() {
 		db2.Close()
 		return
 	}
-	// twin without merge
-	optB := vOptsFull(vDir(), mode, rw, rw, seg, false)
-	dbB, err := Open(optB)
-	if err != nil {
-		vFail("c15.open-twin")
-		return
-	}
-	runTxs(dbB, seedTxs)
-	runTxs(dbB, txs)
 	merr := db.Merge()
 	vObserveBool("merge-ok", merr == nil)
 	o1 := observe(db, keys, structs)
